@@ -92,6 +92,27 @@ def main(argv):
         json.dump(dict(property=pid, **v), open(rp, 'w'), indent=1)
         tail = '' if rep.get('reproduced') else ' no-failing-input-found'
         lines.append('VIOLATION property=%s replay=%s obligation=%s%s' % (pid, rp, v['obligation'].replace(' ', '_'), tail))
+    # bounded run-time contracts of the class-builder steps (the code generator is handed the whole field table, ...)
+    builder_probe = None
+    try:
+        pb = subprocess.run(['/venv/bin/python', os.path.join(ROOT, 'pyvc', 'probe_builder.py'), extract.REPO, str(seed),
+                             '60' if tier == 'quick' else '600'], capture_output=True, text=True, timeout=1800)
+        pbd = json.loads(pb.stdout.strip().splitlines()[-1])
+    except Exception as e:
+        pbd = dict(facts={}, scenarios=[], failures=[dict(part='A', error='probe did not run: %r' % (e,))])
+    builder_probe = dict(probe='probe_builder', facts=pbd.get('facts', {}), scenarios=pbd.get('scenarios', []))
+    for f in pbd.get('failures', []):
+        if f.get('part') == 'A':
+            errors.append(dict(cls='probe_builder', body=[], error='builder probe undecided: %r' % (f,)))
+            continue
+        i = len(violations)
+        rp = os.path.join(OUT, 'replays', pid, 'violation_%d.json' % i)
+        oname = 'packet_builder:PacketClassBuilder.%s/post(bounded)/%s' % (f.get('step'), f.get('clause', '?').replace(' ', '_')[:120])
+        v = dict(obligation=oname, kind='twin', clause=f.get('clause'), replay=dict(reproduced=True, failing_input=f,
+                 note='postcondition of a class-builder step evaluated to False while the real metaclass built this declaration'))
+        violations.append(v)
+        json.dump(dict(property=pid, **v), open(rp, 'w'), indent=1, default=str)
+        lines.append('VIOLATION property=%s replay=%s obligation=%s' % (pid, rp, oname))
     samples = [dict(declaration=r['body'], options=r['options'], direction=r['direction'], note=r.get('note'),
                     pairs_to_solver=len(r.get('items', []))) for r in results[:6]]
     ev = dict(property_id=pid, tier=tier, seed=seed, level='translation_validation',
@@ -107,6 +128,7 @@ def main(argv):
                                           'Fragments == sparse byte array of its contract (C11)',
                                           'non-fixed table entries are deterministic functions of their inputs',
                                           'z3 / cvc5'],
+                            native_probe_bounded=builder_probe,
                             gen_s=round(t_gen, 1)),
               assumptions=['declarations are enumerated (bounded over programs), inputs and values unbounded',
                            'fixed Data values have exactly the declared length (struct pads/truncates, the generic loop does not)',
